@@ -27,7 +27,8 @@ META = {
         "the placement is feasible in the placers' sense: per chip and "
         "resource, sum of demands <= capacity - reserved amount",
         "completeness clause: alignment 1, every reservation touches an end "
-        "of the range (start = 0 or stop = capacity), one chip",
+        "of the range (start = 0 or stop = capacity) on every chip it "
+        "applies to, one or two chips",
     ],
     "outside_claim": ["more vertices per chip / reservations than stated",
                       "alignments other than 1,2,3,4,8",
@@ -188,6 +189,10 @@ def units(tier, seed):
     add(2, 1, 2, 0, 1, False, True)
     add(3, 1, 2, 0, 1, False, True, split=4)
     add(2, 1, 1, 1, 1, False, True)
+    # ... on two chips: what is reserved on one chip only must not count on
+    # the chip allocated after it
+    add(1, 1, 1, 1, 1, True, True, split=4)
+    add(2, 1, 1, 1, 1, True, True, split=5)
     if tier == "thorough":
         for al in (2, 3, 4, 8):
             add(3, 1, 2, 0, al, False, False, split=6)
